@@ -261,9 +261,16 @@ func (db *DB) UpdateRetainedCheckpoints(ids []uint64) error {
 }
 
 // NeedsTable reports whether a retained checkpoint or the current set of
-// sstables uses the table file.
+// sstables uses the table file. The current sstables are read first: a table
+// that has left them can never enter a later checkpoint, whereas reading the
+// checkpoints first would miss a table that a checkpoint captures and a
+// compaction then drops between the two reads.
 func (db *DB) NeedsTable(filePath string) bool {
-	return db.checkpoints.IncludesTable(filePath) || db.currentSSTables().IncludesTable(filePath)
+	if db.currentSSTables().IncludesTable(filePath) {
+		return true
+	}
+	verifhook.At("dkv.needstable.between", db, filePath)
+	return db.checkpoints.IncludesTable(filePath)
 }
 
 func (db *DB) Close() error {
